@@ -782,6 +782,19 @@ pub fn run(ctx: &Ctx) -> Report {
         let sel: Vec<Case> = base.iter().enumerate().filter(|(i, c)| ctx.thorough() || i % 3 == 0 || c.family != "F1_scope_closures_exit").map(|(_, c)| { let mut k = Case::new(c.family, c.prog.clone()); k.modules = c.modules.clone(); k }).collect();
         all.extend(crate::metamorph::displaced_cases("D_after_many_locals_of_the_same_function", &sel, &[127, 128, 200, 230], &[0]));
     }
+    // calls through wrappers (see metamorph.rs): every call site of the program makes a closure over the
+    // variables in scope, calls through it and lets it die
+    {
+        let sel: Vec<Case> = base.iter().enumerate().filter(|(i, c)| ctx.thorough() || i % 2 == 0 || c.family != "F1_scope_closures_exit").map(|(_, c)| { let mut k = Case::new(c.family, c.prog.clone()); k.modules = c.modules.clone(); k }).collect();
+        all.extend(crate::metamorph::wrapper_cases("Z_every_call_through_a_wrapper_lambda", &sel));
+        let corpus = crate::metamorph::standard_corpus(if ctx.thorough() { 1 } else { 4 });
+        all.extend(crate::metamorph::wrapper_cases("Z_every_call_through_a_wrapper_lambda", &corpus));
+        if std::env::var("VERIF_SAMPLE").is_ok() {
+            if let Some(c) = all.iter().rev().find(|c| c.family.starts_with("Z_")) {
+                eprintln!("{}", print_program(&c.prog, false));
+            }
+        }
+    }
     all.extend(base);
     all.extend(f4());
     all.extend(f8());
@@ -794,7 +807,7 @@ pub fn run(ctx: &Ctx) -> Report {
     mcheck::fill_report(
         &mut report,
         &stats,
-        "F1: every combination of scope kind (block, function, lambda, method, while body, for body, try body) x exit (fall through, return, break, continue, throw) x two closures with every read/write action over two variables, created through 0-2 intermediate function levels, called inside the scope, escaped, and called in several orders after the scope has exited; F2: fresh variables per iteration/activation; F3: shadowing at depth 1-3 with a closure and a write at every level; F4: textual resolution and late-bound globals; F5: 1-3 closures over 1-3 shared variables, slot reuse; F6: captures of a try body left by exception or return; F7: capture order - three variables, up to three closures each with every ordered capture list (15 lists), so captures happen in every order relative to declaration order and to earlier captures; F10: closures made in finally / catch blocks over the loop body's locals when the iteration is left by continue / break from inside the try statement (every iteration has variables of its own); F9: locals captured before a try statement stay shared with their closures after an exception was raised inside it and handled in the same frame; F11: a function's own name inside its body means the variable the fn statement declared (global, block local, function local): rebound after a copy was stored, assigned by the function itself, recursion through a renamed copy, a closure over the name, a nested function of the same name; F12: a function written inside a local's own initialiser (or a for loop's iterable) that mentions the local means that local and nothing further out, so the program is rejected like a direct read (five shapes, with and without a module global and an enclosing local of the same name); F8: closures made straight after control came back from another module (exception caught, call returned, fiber finished, exception through a finally block). Each program also runs wrapped in a block, a function and a fiber, as the rest of a function that has declared 127, 128, 200 or 230 other locals first (every third program of F1 in the quick tier), and in a fiber that is suspended after every statement of every block and function and resumed until it has finished. non-trivial = at least three observations printed.",
+        "F1: every combination of scope kind (block, function, lambda, method, while body, for body, try body) x exit (fall through, return, break, continue, throw) x two closures with every read/write action over two variables, created through 0-2 intermediate function levels, called inside the scope, escaped, and called in several orders after the scope has exited; F2: fresh variables per iteration/activation; F3: shadowing at depth 1-3 with a closure and a write at every level; F4: textual resolution and late-bound globals; F5: 1-3 closures over 1-3 shared variables, slot reuse; F6: captures of a try body left by exception or return; F7: capture order - three variables, up to three closures each with every ordered capture list (15 lists), so captures happen in every order relative to declaration order and to earlier captures; F10: closures made in finally / catch blocks over the loop body's locals when the iteration is left by continue / break from inside the try statement (every iteration has variables of its own); F9: locals captured before a try statement stay shared with their closures after an exception was raised inside it and handled in the same frame; F11: a function's own name inside its body means the variable the fn statement declared (global, block local, function local): rebound after a copy was stored, assigned by the function itself, recursion through a renamed copy, a closure over the name, a nested function of the same name; F12: a function written inside a local's own initialiser (or a for loop's iterable) that mentions the local means that local and nothing further out, so the program is rejected like a direct read (five shapes, with and without a module global and an enclosing local of the same name); F8: closures made straight after control came back from another module (exception caught, call returned, fiber finished, exception through a finally block). Each program also runs wrapped in a block, a function and a fiber, as the rest of a function that has declared 127, 128, 200 or 230 other locals first (every third program of F1 in the quick tier), with every call `f(a)` written `(|x| f(x))(a)` and every method call `r.m(a)` written `(|o, x| o.m(x))(r, a)` (these and the standard corpus of the other properties' programs: every call site makes a closure over the variables in scope and lets it die), and in a fiber that is suspended after every statement of every block and function and resumed until it has finished. non-trivial = at least three observations printed.",
         json!({"closures": 2, "variables": 2, "intermediate_levels": if thorough { 3 } else { 2 }, "wrappings": 3}),
     );
     report.assumptions = vec!["M-eval's cell-based environments define the intended semantics (DESIGN.md Appendix A)".into()];
